@@ -335,7 +335,10 @@ func check(c Case) (o ev.Outcome) {
 			n.Kind()
 			n.Exts()
 			yang.MatchingExtensions(n, "openconfig-extensions", "posix-pattern")
-			yang.MatchingExtensions(n, "f", "ext")
+			for _, b := range checked {
+				yang.MatchingExtensions(n, b.mod.Name, "ext")
+				yang.MatchingExtensions(n, b.mod.Name, "why")
+			}
 		}
 	}) {
 		// crashes of Process are C01's business
@@ -514,6 +517,27 @@ func generate(t *rapid.T) Case {
 	for _, n := range g.collect(f) {
 		if !rfc6.UnquotedOK(n.Keyword) {
 			n.Keyword = "foo"
+		}
+	}
+	// In half of the trees the strewn extension statements carry the module's own prefix (a prefix goyang can
+	// resolve, so that the queries for extensions of a given module and name have something to match and
+	// something to pass over).
+	if len(f) > 0 && f[0].Keyword == "module" && rapid.Bool().Draw(t, "own-prefix-on-extensions") {
+		own := ""
+		for _, c := range f[0].Subs {
+			if c.Keyword == "prefix" && c.HasArg {
+				own = c.Arg
+			}
+		}
+		if own != "" && rfc6.UnquotedOK(own+":ext") && !strings.ContainsAny(own, ":") {
+			for _, n := range g.collect(f) {
+				switch n.Keyword {
+				case "p:ext":
+					n.Keyword = own + ":ext"
+				case "x:y":
+					n.Keyword = own + ":why"
+				}
+			}
 		}
 	}
 	p := rfc6.NewPrinter(textgen.Chooser{T: t})
